@@ -25,11 +25,12 @@ pub fn fix_fn_param_idents(sig: &mut syn::Signature) {
         return;
     }
 
-    if lift_inner_pat_idents(sig).is_ok() {
-        return;
+    if !lift_inner_pat_idents(sig).is_ok() {
+        autogenerate_for_non_idents(sig);
     }
 
-    autogenerate_for_non_idents(sig);
+    // a lifted or generated name may coincide with the function's own name as well
+    fix_ident_conflicts(sig);
 }
 
 fn fix_ident_conflicts(sig: &mut syn::Signature) -> ParamStatus {
